@@ -6,7 +6,7 @@ ALL = ["C%02d" % i for i in range(1, 19)]
 GEN = (" Second tie (regenerated on every run): translate/py2coq.py translates the public wrappers fingerprint_tcp / fingerprint_mtu / fingerprint_http (gate, direction -> section, result), tcp_signatures_match, calculate_window_multiplier, find_tcp_match, the "
        "TCPResult distance, round_frequency, guess_distance, should_fingerprint, the three valid_for_*_fingerprint gates, MTUPacketSignature.from_mss, impersonate/mtu.py's option-list rewrite, "
        "mtu_signatures_match, find_mtu_match, find_http_match, http_signatures_match (with the two header_names sets), headers_match, HTTP.software, the dishonest flag, TCPOptions.parse (the option walker) and - translate/lay2coq.py - the whole extraction layer (IP._from_ipv4/_from_ipv6, TCP.from_packet, Packet.from_packet, TCPPacketSignature.from_packet over Scapy's fields) from /repo's CURRENT source to Gallina (fail-closed "
-       "subset incl. for/while loops, early return, optional values), one generated file per group of functions (match / select / uptime / mtu / options / http / layers), "
+       "subset incl. for/while loops, early return, optional values), one generated file per group of functions (match / select / uptime / mtu / options / http / layers, and api = their end-to-end composition, Gen/GenApiC.v), "
        "and coq/Gen/GenP_<group>.v (GenOptP.v, GenHdrP.v) prove the generated definitions equal to the hand-written models "
        "for all inputs, so for these functions the theorems are re-checked against what the code says now; a property only depends on its own groups.")
 GENIMP = (" Second tie (regenerated on every run): translate/imp2coq.py translates the five helpers of pyp0f/impersonate/tcp.py (_impersonate_ip, _impersonate_options, "
@@ -131,7 +131,7 @@ CLAIMED = {
              tech="Coq frame lemma over a heap model (partial) + runtime before/after object monitor", ref="DESIGN.md section 4 C12, section 7"),
  "C16": dict(text="Coq theorems over the API state machine (state = loaded database): the output of a call after ANY history equals its history-free value "
                   "on the database of the last successful load; histories with the same last load agree; non-load calls preserve the database; repeating a "
-                  "call repeats its result. " + TIE + " Histories of 30 interleaved calls (reloads, raw / freshly parsed / REUSED parsed packets with "
+                  "call repeats its result. " + TIE + GEN + " For C16 the translated pieces are composed end to end (Gen/GenApiC.v: gen_run_ops_eq, C16_translated_history). Histories of 30 interleaved calls (reloads, raw / freshly parsed / REUSED parsed packets with "
                   "varying syn_mss and max_dist, three buffer types, impersonation by label with extra_hops, sibling packets, probe records that force lazy "
                   "state) run in one process and every result is compared with the model's pure value.",
              note="Trusted: as C01/C03/C09 (the machine composes those models); module-level state of the Python runtime is only observable through the "
